@@ -7,9 +7,12 @@ package server
 
 // The caller must not hold the mutex of the client it sends to (Go mutexes are
 // not reentrant); SendEvent itself leaves it as it found it on every exit.
+// ghostint(t, "sent") counts the events handed to SendEvent (a ghost: no code reads it).
 //@ func (t *Teamserver) SendEvent(id string, pk packager.Package) (err error)
 //@   requires nonnil: t != nil
 //@   requires unlocked: smhas(t.Clients, id) ==> !held(smget(t.Clients, id).Mutex)
+//@   modifies ghostint(t, "sent")
+//@   ghost-def ghostint(t, "sent") = old(ghostint(t, "sent")) + 1
 
 // C11: retained unless it has no event code or is one-shot; appended at the end.
 // (The second append of the return statement may write one more spare slot.)
@@ -45,11 +48,22 @@ package server
 //@   requires unlocked: allunlocked("Havoc/cmd/server.Client", "Mutex")
 //@   modifies *
 
+// C11: a new operator is sent every retained event and then every live session:
+// unless a send fails, exactly len(EventsList) + (number of active agents) events go out,
+// all to that operator, the session events for active agents only.
+//@ recspec nactive(k, as) = ite(k <= 0, 0, nactive(k-1, as) + ite(as[k-1].Active, 1, 0))
 //@ func (t *Teamserver) SendAllPackagesToNewClient(ClientID string)
 //@   requires nonnil: t != nil
 //@   requires agents: forall(i, 0, len(t.Agents.Agents), t.Agents.Agents[i] != nil)
 //@   requires unlocked: allunlocked("Havoc/cmd/server.Client", "Mutex")
-//@   modifies *
+//@   modifies ghostint(t, "sent")
+//@   guard-call to:   "SendEvent" arg(1) == ClientID
+//@   guard-call live: "SendEvent#2" demon.Active
+//@   ensures all: (inscope("err") && err != nil) || ghostint(t, "sent") == old(ghostint(t, "sent")) + len(t.EventsList) + nactive(len(t.Agents.Agents), t.Agents.Agents)
+//@   loop "for _, Package := range t.EventsList"
+//@     invariant count: ghostint(t, "sent") == old(ghostint(t, "sent")) + idx__
+//@   loop "for _, demon := range t.Agents.Agents"
+//@     invariant count: ghostint(t, "sent") == old(ghostint(t, "sent")) + len(t.EventsList) + nactive(idx__, t.Agents.Agents)
 
 //@ func (t *Teamserver) RemoveClient(ClientID string)
 //@   requires nonnil: t != nil
@@ -64,6 +78,8 @@ package server
 //@   requires entry: typeis(key, string) && typeis(value, *Client) && unboxed(value, *Client) != nil
 //@   modifies *
 //@   guard-call authd: "SendEvent" unboxed(value, *Client).Authenticated == true
+// C11: the fan-out never stops early: whatever happens with one client, Range goes on to the next
+//@   ensures goon: r == true
 
 //@ func (t *Teamserver) handleRequest$1(key any, value any, client **Client, pk *packager.Package, t **Teamserver, id *string, isExist *bool) (r bool)
 //@   requires ctx: *t != nil && *client != nil && allunlocked("Havoc/cmd/server.Client", "Mutex")
@@ -108,6 +124,20 @@ package server
 //@   requires nonnil: t != nil && noNilListeners(t) && t.DB != nil && t.DB.db != nil && allunlocked("Havoc/cmd/server.Client", "Mutex")
 //@   modifies *
 //@   guard-store persisted: "Teamserver\.Listeners.*" lastresult(ListenerRemove) == nil
+// an external listener leaves no route behind: the route removed is the one it registered (its Endpoint)
+//@   guard-call route: "EndpointRemove" typeis(t.Listeners[i].Config, *handlers.External) && arg(1) == unboxed(t.Listeners[i].Config, *handlers.External).Config.Endpoint
+//@   guard-call row:   "ListenerRemove" arg(1) == Name
+
+// C16: an edit reaches the running listener object itself (the one requests are served from),
+// for the listener with that name and for no other.
+//@ spec newCfg(c) = unboxed(c, handlers.HTTPConfig)
+//@ func (t *Teamserver) ListenerEdit(Type int, Config any)
+//@   requires nonnil: t != nil && noNilListeners(t) && t.Profile != nil && t.Profile.Config.Demon != nil
+//@   requires kind: Type == handlers.LISTENER_HTTP ==> (typeis(Config, handlers.HTTPConfig) && forall(i, 0, len(t.Listeners), t.Listeners[i].Name == newCfg(Config).Name ==> (typeis(t.Listeners[i].Config, *handlers.HTTP) && unboxed(t.Listeners[i].Config, *handlers.HTTP) != nil)))
+//@   modifies allof(handlers.HTTP.Config)
+//@   ensures applied: Type == handlers.LISTENER_HTTP ==> forall(i, 0, len(t.Listeners), t.Listeners[i].Name == newCfg(Config).Name ==> (unboxed(t.Listeners[i].Config, *handlers.HTTP).Config.UserAgent == newCfg(Config).UserAgent && sameslice(unboxed(t.Listeners[i].Config, *handlers.HTTP).Config.Headers, newCfg(Config).Headers) && sameslice(unboxed(t.Listeners[i].Config, *handlers.HTTP).Config.Uris, newCfg(Config).Uris) && unboxed(t.Listeners[i].Config, *handlers.HTTP).Config.BehindRedir == t.Profile.Config.Demon.TrustXForwardedFor))
+//@   loop "for i := range t.Listeners"
+//@     invariant done: forall(k, 0, idx__, t.Listeners[k].Name == newCfg(Config).Name ==> (unboxed(t.Listeners[k].Config, *handlers.HTTP).Config.UserAgent == newCfg(Config).UserAgent && sameslice(unboxed(t.Listeners[k].Config, *handlers.HTTP).Config.Headers, newCfg(Config).Headers) && sameslice(unboxed(t.Listeners[k].Config, *handlers.HTTP).Config.Uris, newCfg(Config).Uris) && unboxed(t.Listeners[k].Config, *handlers.HTTP).Config.BehindRedir == t.Profile.Config.Demon.TrustXForwardedFor))
 
 //@ func (t *Teamserver) EndpointRemove(endpoint string) (r []*Endpoint)
 //@   requires nonnil: t != nil && forall(i, 0, len(t.Endpoints), t.Endpoints[i] != nil)
